@@ -119,8 +119,9 @@ def run_property(a, ck):
     # ---- correspondence + spec evaluation on implementation traces ----
     cases_all, codes_all = [], []
     corr_errors = []
+    src_broken = []
     tags = collections.Counter()
-    stages = P.get("stages") or [{"harness": P["harness"], "corr": P["corr"], "n": P["n"], "shard": P.get("shard", 250)}]
+    stages = P.get("stages") or [{"harness": P["harness"], "corr": P["corr"], "corr_src": P.get("corr_src"), "n": P["n"], "shard": P.get("shard", 250)}]
     if not res["go_ok"]:
         corr_errors.append({"what": "go build of harness/hooks against /repo failed", "log": res["go_log"][-3000:]})
     else:
@@ -160,6 +161,15 @@ def run_property(a, ck):
                     corr_errors.append({"what": "correspondence module %s does not compile" % mod})
                     continue
                 codes = ck.eval_cases(prop, cases, os.path.join(rundir, st["harness"]), mod, shard=st.get("shard", 250))
+                # the translated source run on the same inputs (separate module: the comparison above
+                # must still run when a change to the Go code breaks the translation-dependent files)
+                smod = st.get("corr_src")
+                if smod:
+                    if res["vo"].get(smod.replace(".", "/") + ".v", False):
+                        scodes = ck.eval_cases(prop, cases, os.path.join(rundir, st["harness"]), smod, shard=st.get("shard", 250), fn="check_src")
+                        codes = [a | b for a, b in zip(codes, scodes)]
+                    else:
+                        src_broken.append(smod)
                 for c, code in zip(cases, codes):
                     c["_stage"] = st
                     c["_code"] = code
@@ -293,6 +303,7 @@ def run_property(a, ck):
         "rule": P["rule"], "samples": samples or [{"note": "no correspondence cases in this run"}],
         "input_distribution": dict(tags.most_common(60)),
         "model_mismatches": len(mismatch), "spec_failures_on_impl": len(spec_fail),
+        "source_run_modules_not_compiling": src_broken,
         "translated_source_mismatches": len(src_mismatch), "spec_failures_on_translated_source": len(src_spec_fail),
         "known_finding_probes_reproduced": sorted(seen_keys),
         "translator": res.get("tr_log", ""),
